@@ -68,6 +68,7 @@ type env struct {
 	cursor  map[string]int
 	tasks   []map[string]interface{}
 	maxc    int
+	logical int
 	bad     string
 }
 
@@ -98,6 +99,7 @@ func newEnv(p *hx.Plan) *env {
 		}
 	}
 	e.tasks = hx.ML(p.Params, "tasks")
+	e.logical = hx.I(p.Params, "logical")
 	e.maxc = hx.I(p.Params, "maxcount")
 	if e.maxc == 0 {
 		e.maxc = 1
@@ -138,12 +140,13 @@ func (e *env) seed() {
 func (e *env) buildPack(v string, pk map[string]interface{}) *msgstream.MsgPack {
 	c := e.collOf(v)
 	pid := hx.S(pk, "id")
-	b, en := srvpipe.TS(hx.I(pk, "b")), srvpipe.TS(hx.I(pk, "e"))
+	lg := uint64(e.logical) // plan parameter "logical": every source timestamp carries this logical part
+	b, en := srvpipe.TS(hx.I(pk, "b"))+lg, srvpipe.TS(hx.I(pk, "e"))+lg
 	pack := &msgstream.MsgPack{BeginTs: b, EndTs: en,
 		StartPositions: []*msgstream.MsgPosition{{ChannelName: v, MsgID: []byte(pid), Timestamp: b}},
 		EndPositions:   []*msgstream.MsgPosition{{ChannelName: v, MsgID: []byte(pid), Timestamp: en}}}
 	for i, mm := range hx.ML(pk, "msgs") {
-		k, ts, pn := hx.S(mm, "k"), srvpipe.TS(hx.I(mm, "ts")), hx.S(mm, "p")
+		k, ts, pn := hx.S(mm, "k"), srvpipe.TS(hx.I(mm, "ts"))+lg, hx.S(mm, "p")
 		if pn == "" {
 			pn = "_default"
 		}
@@ -205,7 +208,7 @@ func (e *env) settle(ev hx.Event) {
 		if e.inc != nil {
 			for _, r := range e.inc.TT.DrainLog() {
 				n++
-				rec := hx.Event{"op": r.Op, "v": r.VChannel, "has_seek": r.HasSeek, "seek_id": r.SeekID, "seek_t": srvpipe.ModelT(r.SeekTs), "epoch": e.inc.Epoch}
+				rec := hx.Event{"op": r.Op, "v": r.VChannel, "has_seek": r.HasSeek, "seek_id": r.SeekID, "seek_t": srvpipe.ModelT(r.SeekTs), "seek_l": srvpipe.Logical(r.SeekTs), "epoch": e.inc.Epoch}
 				regs = append(regs, rec)
 				if r.Op == "register" && r.HasSeek {
 					if len(r.SeekID) > 5 && r.SeekID[:5] == "init-" {
@@ -328,6 +331,15 @@ func run(p *hx.Plan) []hx.Event {
 			if ch != nil {
 				close(ch)
 			}
+		case "infofail": // from now on the downstream refuses (or answers again) DescribeCollection for collection c
+			if e.w.InfoFail == nil {
+				e.w.InfoFail = map[string]bool{}
+			}
+			e.w.InfoFail[hx.S(st, "c")] = hx.B(st, "on")
+			if e.inc != nil {
+				e.inc.Target.SetFail("default", hx.S(st, "c"), hx.B(st, "on"))
+			}
+			ev["c"], ev["on"] = hx.S(st, "c"), hx.B(st, "on")
 		case "pause":
 			_, err := e.inc.CDC.Pause(&request.PauseRequest{TaskID: hx.S(st, "task")})
 			ev["task"], ev["err"] = hx.S(st, "task"), err != nil
